@@ -139,7 +139,11 @@ Definition check (c : c04case) : list nat :=
       let m := reorder order (join mds) in
       (if list_eqb kv_eqb (to_kv m) obs_kvs then [] else [1%nat]) ++
       (if opt_md_eqb (to_md obs_kvs) obs_md then [] else [1%nat]) ++
-      (if spec_codec mds order obs_md then [] else [2%nat])
+      (if spec_codec mds order obs_md then [] else [2%nat]) ++
+      (* the emitted key order must cover every key that has values: a key ToKeyValue drops entirely
+         would otherwise vanish from both sides of the comparison *)
+      (if Nat.eqb (length m) (length (filter (fun e => match snd e with [] => false | _ => true end) (join mds)))
+       then [] else [2%nat])
   | CToMd kvs obs =>
       if opt_md_eqb (to_md kvs) obs then [] else [1%nat]
   | CB64 raw obs_enc obs_dec =>
